@@ -15,6 +15,7 @@ import (
 	"math/rand"
 	"net/http"
 	"sort"
+	"strconv"
 	"strings"
 	"time"
 
@@ -186,7 +187,35 @@ func (h *hist) step(repo string) {
 		}
 	case k < 19:
 		h.restart()
+		// a reload is where the recorded findings K1/K5 surface: look at every repository right now, so that they are
+		// recognised in the state they occur in
+		for _, rp := range []string{"r", "r/n"} {
+			if rp != repo && !h.bad {
+				h.compare(rp, "after restart")
+			}
+		}
 	default:
+		if rng.Intn(3) == 0 {
+			// push a whole graph in dependency order by digest (children become implicit entries of their parents), then
+			// tag the outermost index: deep parent chains for the next reload
+			var lastIdx *vh.Man
+			for _, mm := range u.Mans {
+				if mm.Subject == "" && m.ValidRefs(mm) {
+					if rs, ok := w.PutManifest(repo, mm, ""); (rs.Status == 201) != ok {
+						h.bad = true
+						return
+					}
+					if mm.Index {
+						lastIdx = mm
+					}
+				}
+			}
+			if lastIdx != nil {
+				w.PutManifest(repo, lastIdx, u.Tags[rng.Intn(len(u.Tags))])
+			}
+			h.r.Count("graph_pushes", 1)
+			return
+		}
 		if h.focus == "C02" {
 			h.reads(repo)
 		} else {
@@ -325,7 +354,7 @@ func (h *hist) paging(repo string) {
 		}
 	}
 	// odd values: status 200, valid JSON, sorted duplicate-free subset of the tags greater than last
-	odd := []string{"0", "-1", "-2147483648", "9223372036854775808", "x", "", "1e3", "%00", "00"}
+	odd := []string{"0", "-1", "-2147483648", "9223372036854775808", "x", "", "1e3", "%00", "00", "1", "2", "3", "1000", "absent", "absent"}
 	lasts := []string{"", "0", "zzzz", "\x00", "%ff"}
 	if len(want) > 0 {
 		t := want[rng.Intn(len(want))]
@@ -333,8 +362,11 @@ func (h *hist) paging(repo string) {
 	}
 	nv, lv := odd[rng.Intn(len(odd))], lasts[rng.Intn(len(lasts))]
 	q := "?n=" + nv
+	if nv == "absent" {
+		q = "?x=1"
+	}
 	lastDec := ""
-	if rng.Intn(2) == 0 {
+	if rng.Intn(3) > 0 {
 		q += "&last=" + strings.NewReplacer("\x00", "%00").Replace(lv)
 		lastDec = strings.NewReplacer("%ff", "\xff", "%00", "\x00").Replace(lv)
 	}
@@ -359,6 +391,24 @@ func (h *hist) paging(repo string) {
 	for i, t := range tl.Tags {
 		if !set[t] || (i > 0 && tl.Tags[i-1] >= t) || (lastDec != "" && t <= lastDec) {
 			h.viol("list:odd-content", fmt.Sprintf("GET %s returned %v, tags are %v", base+q, tl.Tags, want))
+			return
+		}
+	}
+	// with no n, or a positive page size, the answer is exact: the first n of the tags greater than last - whether or
+	// not last is itself a current tag
+	if nn, err := strconv.Atoi(nv); nv == "absent" || (err == nil && nn >= 1 && nv != "00") {
+		var exp []string
+		for _, t := range want {
+			if lastDec == "" || t > lastDec {
+				exp = append(exp, t)
+			}
+		}
+		if nv != "absent" && len(exp) > nn {
+			exp = exp[:nn]
+		}
+		h.r.Count("exact_listings_with_last", 1)
+		if strings.Join(exp, ",") != strings.Join(tl.Tags, ",") {
+			h.viol("list:last-inexact", fmt.Sprintf("GET %s returned %v, the tags greater than last are %v (all tags %v)", base+q, tl.Tags, exp, want))
 			return
 		}
 	}
